@@ -29,9 +29,38 @@ import (
 
 type ccall struct {
 	CC   bool   `json:"cc"`  // the context carries a ClientCurrent
-	Set  bool   `json:"set"` // SetClientHash was called
+	Set  bool   `json:"set"` // SetClientHash was called (once, with Ty/Code) — when Opts is empty
 	Ty   int    `json:"ty"`
 	Code uint32 `json:"code"`
+	// Opts: the per-call options applied to the context, in this order (any subset, any order,
+	// repetitions).  When present they replace Set/Ty/Code: the hash in force is the LAST hash option.
+	Opts []copt `json:"opts,omitempty"`
+}
+
+// copt is one client-context option: hash = current.SetClientHash(ctx, Ty, Code), timeout =
+// current.SetClientTimeout(ctx, Ms), ip / port = current.SetServerIPWithContext / SetServerPortWithContext
+// (the other setters of ClientCurrent), dye = current.SetDyeingKey (lives in the server-side Current;
+// read by TarsInvoke as well).
+type copt struct {
+	K    string `json:"k"`
+	Ty   int    `json:"ty,omitempty"`
+	Code uint32 `json:"code,omitempty"`
+	Ms   int    `json:"ms,omitempty"`
+	S    string `json:"s,omitempty"`
+}
+
+func (o copt) token() string {
+	switch o.K {
+	case "hash":
+		return fmt.Sprintf("h:%d:%d", o.Ty, o.Code)
+	case "timeout":
+		return fmt.Sprintf("t:%d", o.Ms)
+	case "ip":
+		return "i"
+	case "port":
+		return "p"
+	}
+	return ""
 }
 
 type ccase struct {
@@ -244,7 +273,53 @@ func (h *harness) runCtx(c *ccase) {
 		if call.CC {
 			ctx = current.ContextWithClientCurrent(ctx)
 		}
-		if call.Set {
+		modelLine := fmt.Sprintf("route %d %d %d %d", b2i(call.CC), b2i(call.Set), call.Ty, call.Code)
+		if len(call.Opts) > 0 {
+			// any subset and order of the per-call options; the hash in force is the last one set
+			call.Set = false
+			modelLine = fmt.Sprintf("routeops %d", b2i(call.CC))
+			lastMs, hasMs, lastSetter := 0, false, ""
+			for _, o := range call.Opts {
+				switch o.K {
+				case "hash":
+					current.SetClientHash(ctx, o.Ty, o.Code)
+					call.Set, call.Ty, call.Code = true, o.Ty, o.Code
+					lastSetter = ""
+				case "timeout":
+					current.SetClientTimeout(ctx, o.Ms)
+					lastMs, hasMs = o.Ms, true
+					lastSetter = "SetClientTimeout"
+				case "ip":
+					current.SetServerIPWithContext(ctx, o.S)
+					lastSetter = "SetServerIPWithContext"
+				case "port":
+					current.SetServerPortWithContext(ctx, o.S)
+					lastSetter = "SetServerPortWithContext"
+				case "dye":
+					ctx = current.ContextWithTarsCurrent(ctx)
+					current.SetDyeingKey(ctx, o.S)
+					lastSetter = "SetDyeingKey"
+				}
+				if t := o.token(); t != "" {
+					modelLine += " " + t
+				}
+				// the context itself, after every option
+				if ok, ty, code, is := current.GetClientHash(ctx); call.CC && (!ok || is != call.Set || (is && (ty != call.Ty || code != call.Code))) {
+					locus := "current." + lastSetter
+					if lastSetter == "" {
+						locus = "current.SetClientHash"
+					}
+					h.cviolate(c, "C14:ctx-hash-lost:"+locus, "a hash code set in the call context is no longer reported by GetClientHash after another per-call option was set",
+						fmt.Sprintf("call %+v after option %+v: GetClientHash = (ok=%v type=%d code=%d isHash=%v), set was type=%d code=%d", call.Opts, o, ok, ty, code, is, call.Ty, call.Code), ci)
+					break
+				}
+				if ok, ms, is := current.GetClientTimeout(ctx); call.CC && (!ok || is != hasMs || (is && ms != lastMs)) {
+					h.cviolate(c, "C14:wrong-value:current."+map[bool]string{true: lastSetter, false: "SetClientHash"}[lastSetter != ""], "a per-call timeout set in the call context is no longer reported by GetClientTimeout after another option was set",
+						fmt.Sprintf("call %+v after option %+v: GetClientTimeout = (ok=%v ms=%d isTimeout=%v)", call.Opts, o, ok, ms, is), ci)
+					break
+				}
+			}
+		} else if call.Set {
 			ok := current.SetClientHash(ctx, call.Ty, call.Code)
 			if ok != call.CC {
 				h.cviolate(c, "C14:wrong-value:current.SetClientHash", "SetClientHash result", fmt.Sprint(ok), ci)
@@ -378,9 +453,12 @@ func (h *harness) runCtx(c *ccase) {
 			rrArg = fmt.Sprintf("%s:%d", hexHost(hosts[0]), w)
 		}
 		lines = append(lines,
-			fmt.Sprintf("route %d %d %d %d", b2i(call.CC), b2i(call.Set), call.Ty, call.Code),
+			modelLine,
 			fmt.Sprintf("sap 1 %d 0 0 %d %d %d 1 1 %s", n, b2i(ctxMsg.IsHash()), int(ctxMsg.HashType()), ctxMsg.HashCode(), rrArg))
 		h.res.Count(fmt.Sprintf("ctx|%s|%v|%d|%v", c.Kind, call, n, c.EW), "ctx:"+c.Kind+":"+strat, true)
+		if len(call.Opts) > 0 {
+			h.res.Histogram["ctx:options:"+optShape(call.Opts)]++
+		}
 		h.res.TracesValidated++
 	}
 	if ctxCheckAd {
@@ -438,9 +516,50 @@ func genCalls(rng *rand.Rand, n int, keyPts []uint32) []ccall {
 		default:
 			cl.Code = rng.Uint32()
 		}
+		// two thirds of the calls build their context from several options in a random order
+		if rng.Intn(3) != 0 {
+			var opts []copt
+			if cl.Set {
+				opts = append(opts, copt{K: "hash", Ty: cl.Ty, Code: cl.Code})
+				if rng.Intn(5) == 0 { // set twice: the last one counts
+					opts = append(opts, copt{K: "hash", Ty: rng.Intn(3), Code: rng.Uint32()})
+				}
+			}
+			for _, k := range []string{"timeout", "ip", "port", "dye", "timeout"} {
+				if rng.Intn(2) == 0 {
+					opts = append(opts, copt{K: k, Ms: 1000 + rng.Intn(9000), S: fmt.Sprintf("v%d", rng.Intn(100))})
+				}
+			}
+			rng.Shuffle(len(opts), func(i, j int) { opts[i], opts[j] = opts[j], opts[i] })
+			if len(opts) > 0 {
+				cl.Opts = opts
+			}
+		}
 		calls = append(calls, cl)
 	}
+	// the orders that matter most, always present: hash then timeout, timeout then hash
+	code := uint32(12345)
+	if len(keyPts) > 0 {
+		code = keyPts[0]
+	}
+	for _, ty := range []int{0, 1} {
+		calls = append(calls,
+			ccall{CC: true, Opts: []copt{{K: "hash", Ty: ty, Code: code}, {K: "timeout", Ms: 5000}}},
+			ccall{CC: true, Opts: []copt{{K: "timeout", Ms: 5000}, {K: "hash", Ty: ty, Code: code}}},
+			ccall{CC: true, Opts: []copt{{K: "hash", Ty: ty, Code: code}, {K: "ip", S: "x"}, {K: "port", S: "1"}, {K: "dye", S: "k"}}})
+	}
 	return calls
+}
+
+func optShape(opts []copt) string {
+	s := ""
+	for _, o := range opts {
+		s += o.K[:1]
+	}
+	if len(s) > 4 {
+		s = s[:4] + "+"
+	}
+	return s
 }
 
 func plainHost(rng *rand.Rand, salt int) string {
